@@ -154,7 +154,7 @@ theorem keyOK_of_leaf (a : Val) (hl : isLeaf a = true) (ha : KeyWF a) : KeyOK a 
 theorem leaf_of_totalEq (a b : Val) (hl : isLeaf a = true) (h : totalEq a b = true) : isLeaf b = true := by
   cases a <;> cases b <;> simp_all [isLeaf, totalEq]
 
-theorem leaf_of_totalEq' (a b : Val) (hl : isLeaf b = true) (h : totalEq a b = true) : isLeaf a = true := by
+theorem leaf_of_totalEq_rev (a b : Val) (hl : isLeaf b = true) (h : totalEq a b = true) : isLeaf a = true := by
   cases a <;> cases b <;> simp_all [isLeaf, totalEq]
 
 theorem leaf_pkg (a b c : Val) (hl : isLeaf a = true) (ha : KeyWF a) (hb : KeyWF b) (hc : KeyWF c) : Pkg a b c := by
